@@ -60,7 +60,9 @@ def run(module, cfg, name, workers=16, timeout=1800, env=None, simulate=None, ex
     os.makedirs(jtmp, exist_ok=True)
     out_path = os.path.join(wd, "out.txt")
     # one-worker judge shards run 16 at a time: a serial collector avoids 16 x 16 GC threads fighting for the cores
-    cmd = ["java", "-XX:+UseSerialGC" if workers == 1 else "-XX:+UseParallelGC", "-Djava.io.tmpdir=" + jtmp]
+    # -Xss: recursive operators over sequences of a hundred and more elements (bulk collections, long ID lists) need more
+    # than the default thread stack
+    cmd = ["java", "-XX:+UseSerialGC" if workers == 1 else "-XX:+UseParallelGC", "-Xss64m", "-Djava.io.tmpdir=" + jtmp]
     if heap:
         cmd.append("-Xmx" + heap)
     cmd += ["-cp", JAR, "tlc2.TLC", "-workers", str(workers), "-metadir", os.path.join(wd, "md"),
@@ -127,6 +129,9 @@ def json_lines(res, kind):
 
 def require_ok(res, what):
     if not res["stats"].get("ok"):
-        tail = "\n".join(res["text"].splitlines()[-40:])
+        lines = res["text"].splitlines()
+        first = [i for i, ln in enumerate(lines) if ln.startswith("Error:") or "Exception" in ln]
+        head = "\n".join(lines[first[0]:first[0] + 25]) + "\n...\n" if first else ""
+        tail = head + "\n".join(lines[-15:])
         raise TlcError("TLC failed for %s (rc=%s, violated=%s)\n%s" %
                        (what, res["stats"].get("rc"), res["stats"].get("violated"), tail))
